@@ -169,12 +169,15 @@ RULES = [
 def main():
     outdir, h = factgen.ensure_facts(("dev", "rel"))
     keys = set()
+    sigs = {}
     for prof in ("dev", "rel"):
         F = core.load_facts(outdir, prof)
         for fn in F.all_fns(tests=False):
             for b in [fn] + fn.promoteds():
                 for s in census.sites_of(b):
                     keys.add(s["key"])
+                    if s.get("sig"):
+                        sigs.setdefault(s["key"], s["sig"])
     out = {}
     unmatched = []
     compiled = [(re.compile("^(?:" + p + ")$"), r, g) for p, r, g in RULES]
@@ -185,6 +188,8 @@ def main():
                 e = {"reason": reason}
                 if g:
                     e["guard"] = g
+                if k in sigs:
+                    e["sig"] = sigs[k]   # what the operation is applied to (recognises the site again after a move inside its function)
                 out[k] = e
                 hit.add(i)
                 break
